@@ -11,7 +11,7 @@ Exit 0: property held on everything explored.  Exit 1: VIOLATION line printed.  
 import argparse, importlib, json, os, sys, time, traceback
 from collections import Counter
 
-from . import core, lean_audit
+from . import core, lean_audit, scope
 from .core import VERIF, Rng, impl_call, run_driver_parallel, case_key
 from .props import PROPS, TRUSTED_BASE
 
@@ -63,6 +63,16 @@ def write_replay(pid, seed, k, payload):
     return os.path.relpath(path, VERIF)
 
 
+def _same_err_kinds(o):
+    """copy of a result with every `"err": <kind>` replaced by `"err": "Error"` (whether something raised is
+    compared, which exception class it raised is not)"""
+    if isinstance(o, dict):
+        return {k: ("Error" if (k == "err" and isinstance(v, str)) else _same_err_kinds(v)) for k, v in o.items()}
+    if isinstance(o, list):
+        return [_same_err_kinds(v) for v in o]
+    return o
+
+
 def run_group(G, pid, cases, oracle):
     """returns (records, disagreements, violations); a record = dict(case, impl, model, diff, viol)"""
     impl_res = [impl_call(G.impl, c) for c in cases]
@@ -73,9 +83,14 @@ def run_group(G, pid, cases, oracle):
         if mr.get("st") == "bad":
             raise core.DriverError(f"driver rejected request of group {G.NAME}: {mr.get('msg')} case={json.dumps(c, default=str)[:300]}")
         frag = bool(getattr(G, "fragile", lambda *_: False)(c, ir, mr))
-        diff = None if frag else G.compare(c, ir, mr)
+        # an input outside every property's quantifier that one side rejects and the other does not (or rejects
+        # with another exception type): not a disagreement (harness/scope.py), counted in the evidence
+        oos = (not frag) and scope.excluded(G.NAME, c, ir, mr)
+        # the KIND of exception is not compared (no property depends on it; a maintainer may turn an IndexError into
+        # a descriptive ValueError): both sides are compared with every error kind replaced by the same token
+        diff = None if (frag or oos) else G.compare(c, _same_err_kinds(ir), _same_err_kinds(mr))
         v = oracle(c, ir) if oracle else None
-        rec = {"case": c, "impl": ir, "model": mr, "diff": diff, "viol": v, "fragile": frag}
+        rec = {"case": c, "impl": ir, "model": mr, "diff": diff, "viol": v, "fragile": frag, "oos": oos}
         recs.append(rec)
         if diff:
             dis.append(rec)
@@ -151,7 +166,8 @@ def main(argv=None):
         rng = Rng(seed * 1000003 + int(pid[1:]))
         changed = changed_sources(pid)
         # the anchored code differs from the tree the model was last validated against: look harder
-        boost = 5.0 if (changed and tier == "quick") else 1.0
+        # (a property may set its own factor: `boost` in its propdef; C14's cases are expensive)
+        boost = float(P.get("boost", 5.0)) if (changed and tier == "quick") else 1.0
         all_recs, all_dis, all_vio = [], [], []
         per_group = {}
         for gname, budget in P["groups"].items():
@@ -176,6 +192,7 @@ def main(argv=None):
             per_group[gname] = {"evaluations": len(recs), "distinct_nontrivial": len(nontriv),
                                 "branches": dict(sigs.most_common(40)),
                                 "fragile_excluded": sum(1 for r in recs if r["fragile"]),
+                                "out_of_scope_excluded": sum(1 for r in recs if r.get("oos")),
                                 "disagreements": len(dis), "oracle_violations": len(vio),
                                 "exhaustive": bool(getattr(G, "EXHAUSTIVE", {}).get(tier, False)),
                                 "rule": G.RULE}
